@@ -19,3 +19,31 @@ s = open(p).read()
 a = "<!-- STATUS-BEGIN -->"; b = "<!-- STATUS-END -->"
 s = s[:s.index(a)] + a + "\n" + block + "\n" + b + s[s.index(b) + len(b):]
 open(p, 'w').write(s)
+
+# seeded-change counts (between SEEDS-BEGIN/END), from seeded/*/meta.json
+sd = os.path.join(ROOT, 'seeded')
+tot = fi = nf = miss = 0
+per = {}
+for d in sorted(os.listdir(sd)):
+    mp = os.path.join(sd, d, 'meta.json')
+    if not os.path.isfile(mp):
+        continue
+    m = json.load(open(mp))
+    r = (m.get('detected_by') or {}).get(m['property'] + '/quick', 'not run')
+    tot += 1
+    if r.startswith('detected') and 'no-failing' in r:
+        nf += 1
+    elif r.startswith('detected'):
+        fi += 1
+    else:
+        miss += 1
+    per.setdefault(m['property'], []).append(d.split('-')[1] + (':nf' if 'no-failing' in r else ('' if r.startswith('detected') else ':' + r)))
+txt = (f"Current totals (generated from `seeded/*/meta.json`): **{tot}** kept changes; **{fi + nf}** detected by the quick check of the "
+       f"property they target ({fi} with a concrete failing input, {nf} as a broken theorem/correspondence with `no-failing-input-found`), "
+       f"{miss} not detected or not yet run. Per property (seed numbers; `:nf` = no-failing-input-found): "
+       + "; ".join(f"{k}: {' '.join(v)}" for k, v in sorted(per.items())) + ".")
+s = open(p).read()
+a = "<!-- SEEDS-BEGIN -->"; b = "<!-- SEEDS-END -->"
+if a in s:
+    s = s[:s.index(a)] + a + "\n" + txt + "\n" + b + s[s.index(b) + len(b):]
+    open(p, 'w').write(s)
